@@ -312,6 +312,7 @@ inductive Act where
   | resume (budget : Nat)   -- the transport calls `resumeProducing()`
   | deliver                 -- the oldest record in flight from the peer reaches `got_record`
   | park                    -- …reaches our new, not yet selected, L2 connection and is queued there
+  | unpark                  -- `select()` hands the oldest parked record to `got_record` (first part of `use`)
   | listen (name : Bytes)   -- the application registers its listener for a subprotocol
   deriving DecidableEq, Repr
 
@@ -331,6 +332,7 @@ def enabledA (w : World) : Act → Bool
   | .resume _ => w.a.conn
   | .deliver => !w.b.out.isEmpty && w.a.parked.isEmpty
   | .park => !w.a.conn && !w.b.out.isEmpty
+  | .unpark => !w.a.conn && !w.a.parked.isEmpty
   | .listen n => !w.a.l4.factories.contains n
 
 /-- an act of side `a` (the peer is `b`) -/
@@ -356,6 +358,13 @@ def stepA (w : World) : Act → Except Err World
     match w.b.out with
     | [] => .error .illegal
     | m :: rest => .ok { a := { w.a with parked := w.a.parked ++ [m] }, b := { w.b with out := rest } }
+  | .unpark =>
+    -- one turn of `process_inbound_queue`: `r = queue.pop(0); manager.got_record(r)`; the real code runs all of
+    -- them and then `connector_connection_made` in one go (`use`), a record's handling may make the application write
+    if w.a.conn then .error .illegal else
+    match w.a.parked with
+    | [] => .error .illegal
+    | m :: rest => .ok { w with a := gotRecord { w.a with parked := rest } m }
   | .listen n =>
     if w.a.l4.factories.contains n then .error .illegal      -- ValueError: already listening
     else .ok { w with a := listen w.a n }
@@ -416,7 +425,7 @@ def skel_handle_open : List (String × String) :=
 
 ```
 write <A|B> open <scid> <subhex> | write <A|B> data <scid> <hex> | write <A|B> close <scid>
-use <A|B> <budget> | lose <A|B> | pause <A|B> | resume <A|B> <budget> | deliver <A|B> | park <A|B>
+use <A|B> <budget> | lose <A|B> | pause <A|B> | resume <A|B> <budget> | deliver <A|B> | park <A|B> | unpark <A|B>
 listen <A|B> <namehex>
 ```
 Every line answers `<ok|delivered record|exception> A{…} B{…}` with the full state of both sides.
@@ -465,6 +474,7 @@ def readEvent? : List String → Option Event
   | ["resume", x, k] => do pure (← readWho? x, .resume (← k.toNat?))
   | ["deliver", x] => do pure (← readWho? x, .deliver)
   | ["park", x] => do pure (← readWho? x, .park)
+  | ["unpark", x] => do pure (← readWho? x, .unpark)
   | ["listen", x, h] => do pure (← readWho? x, .listen (← fromHex? h))
   | _ => none
 
@@ -472,6 +482,8 @@ def readEvent? : List String → Option Event
 def deliveredOf (w : World) : Event → String
   | (.A, .deliver) => match w.b.out with | m :: _ => showWire m | [] => "ok"
   | (.B, .deliver) => match w.a.out with | m :: _ => showWire m | [] => "ok"
+  | (.A, .unpark) => match w.a.parked with | m :: _ => showWire m | [] => "ok"
+  | (.B, .unpark) => match w.b.parked with | m :: _ => showWire m | [] => "ok"
   | (.A, .park) => match w.b.out with | m :: _ => showWire m | [] => "ok"
   | (.B, .park) => match w.a.out with | m :: _ => showWire m | [] => "ok"
   | _ => "ok"
